@@ -538,12 +538,46 @@ func deepB(isB func(ssa.Instruction) bool, depth int) func(ssa.Instruction) bool
 // called after start, and when start lies in a helper of root the obligation continues
 // after each call site of that helper.
 func MustFollowDeep(root *ssa.Function, start Point, isB func(ssa.Instruction) bool, stop func(ssa.Instruction) bool) FollowResult {
+	return mustFollowDeep(root, start, isB, stop, nil, false)
+}
+
+// MustFollowCutDeep is MustFollowDeep that never takes an edge of cut (edges of any
+// function of Reach(root), e.g. from CutEdgesDeep).
+// A helper called on the way counts as B when each of its paths executes B, takes a cut
+// edge or ends at a stop instruction (its failing returns): the caller of such a helper is
+// expected to propagate the failure.
+func MustFollowCutDeep(root *ssa.Function, start Point, isB func(ssa.Instruction) bool, stop func(ssa.Instruction) bool, cut map[Edge]bool) FollowResult {
+	return mustFollowDeep(root, start, isB, stop, cut, true)
+}
+
+func mustFollowDeep(root *ssa.Function, start Point, isB func(ssa.Instruction) bool, stop func(ssa.Instruction) bool, cut map[Edge]bool, stopInHelpers bool) FollowResult {
 	defer WithRoot(root)()
 	set := Reach(root)
+	b0 := deepB(isB, 0)
+	if stopInHelpers {
+		var mk func(depth int) func(ssa.Instruction) bool
+		mk = func(depth int) func(ssa.Instruction) bool {
+			return func(x ssa.Instruction) bool {
+				if isB(x) {
+					return true
+				}
+				ci, ok := x.(*ssa.Call)
+				if !ok || depth > 2 {
+					return false
+				}
+				cal := ci.Call.StaticCallee()
+				if cal == nil || cal.Blocks == nil || !helperOK(cal) || cal == x.Parent() {
+					return false
+				}
+				return MustFollowCut(cal, Point{cal.Blocks[0], 0}, mk(depth+1), stop, cut).OK
+			}
+		}
+		b0 = mk(0)
+	}
 	var follow func(pt Point, depth int) FollowResult
 	follow = func(pt Point, depth int) FollowResult {
 		f := pt.Block.Parent()
-		r := MustFollow(f, pt, deepB(isB, 0), stop)
+		r := MustFollowCut(f, pt, b0, stop, cut)
 		if r.OK || f == root || depth > 4 {
 			return r
 		}
